@@ -24,15 +24,15 @@ CHECKS = {
   "design_ref": "DESIGN.md section 6 / C04",
  },
  "C03": {
-  "text": "Every Rust panic site and unbounded loop of the codec, packet sender/receiver, frame queue, rate controller and half connection is an explicit Trap outcome of the executable Lean models; hostile correspondence streams (CRC-valid frames with arbitrary field values injected as raw bytes into a live connection, noise, 0 ms step spacings, tiny rate limits) compare trap/hang behaviour of model and code exactly, and the implementation-side oracle demands no panic/hang at all. Six genuine defects were found this way and repaired (known_findings.json: F1 F4 F5 F6 F7 F16). Proved so far: totality of the parser; the per-component no-trap theorems are listed in evidence.partial as they are completed.",
-  "note": "Partial: the trap-freedom theorems for PRecv/PSend/FrameQ/Rate/HalfConn and the client/server part are in progress; until then the claim rests on exact trap correspondence plus the no-trap oracle over the hostile streams. Trusted: harness catch_unwind + watchdog.",
-  "technique": "Lean 4 models with explicit trap outcomes + hostile differential correspondence; proofs of trap-freedom per component (in progress)",
+  "text": "Every Rust panic site and unbounded loop of the codec, packet sender/receiver, frame queue, rate controller and half connection is an explicit Trap outcome of the executable Lean models. Theorems: the parser is total (C16); the packet receiver never traps and all its loops terminate, for every datagram with arbitrary field values (incl. ids >= 2^32, channels >= 64), receive and resynchronise(any id) (C03_precv_notrap, C03_precv_step with invariant, C03_precv_handleDatagram/receive/resynchronize); the rate controller's bisection terminates and its no-trap conditions are characterised (Props/C03Rate); acknowledgeGroup never traps under AckInv (C15_no_trap_partial). Hostile correspondence streams (CRC-valid frames with arbitrary field values injected as raw bytes into a live connection, noise, 0 ms step spacings, tiny rate limits) compare trap/hang behaviour of model and code exactly, and the implementation-side oracle demands no panic/hang at all. Six genuine defects were found this way and repaired (F1 F4 F5 F6 F7 F16).",
+  "note": 'Partial: no-trap theorems for the composed half connection (emitters, frame queue window advancement) and for client/server step are not complete; there the claim rests on exact trap correspondence plus the no-trap oracle over the hostile streams. Trusted: harness catch_unwind + watchdog.',
+  "technique": 'Lean 4 models with explicit trap outcomes + no-trap/termination theorems per component + hostile differential correspondence',
   "design_ref": "DESIGN.md section 6 / C03",
  },
  "C06": {
-  "text": "Executable Lean models of the assembly-window allocation ledger, the receive-window data entries and the packet sender, with the sender-side bound proved (C06_emit_alloc_le; receiver-side theorems listed in evidence as they are completed); tied to the code by hc correspondence in which a cfg-only probe returns the implementation's own alloc counters, assembly-buffer capacity and undelivered payload bytes after every tick, compared exactly with the model and checked against the limits. Hostile streams (fragment counts up to 65536, never-completing packets, cross-channel parents, application not reading) found defect F2 (repaired).",
-  "note": "Partial: receiver-side invariants (alloc = sum over slots <= ceil(limit), held <= alloc) are in progress as theorems; until then they are checked on every probe of every scenario. Allocator overhead is outside the model.",
-  "technique": "Lean 4 model + invariant proofs (in progress) + differential correspondence with a counter probe",
+  "text": "Lean theorems for every run of the packet-receiver model (any datagrams, any field values, receive and resynchronise operations, any window size and base): C06_recv_alloc (the allocation counter equals the sum over the assembly slots, slot keys distinct, counter <= fragment-rounded limit), C06_recv_held (undelivered payload bytes <= counter <= limit; an active slot is charged (last+1)*1448; delivered-pending data only in closed slots and no larger than their charge), C06_recv_state_bounded (<= W slots, 64 channels); sender side C06_emit_alloc_le. Tied to the code by hc correspondence in which a cfg-only probe returns the implementation's own alloc counters, assembly-buffer capacity and undelivered payload bytes after every tick, compared exactly with the model and checked against the limits. Hostile streams (fragment counts up to 65536, never-completing packets, cross-channel parents, application not reading) found defect F2 (repaired).",
+  "note": 'Trusted: Lean kernel (propext, Classical.choice, Quot.sound), extract_consts.py, harness/driver, read-only probe. Not covered by a theorem: the frame-ack queue (pending ack groups, F3 by reading) - its length is compared in every probe; allocator overhead is outside the model.',
+  "technique": 'Lean 4 invariant proofs over all receiver runs + differential correspondence with a counter probe',
   "design_ref": "DESIGN.md section 6 / C06",
  },
  "C13": {
@@ -54,27 +54,27 @@ CHECKS = {
   "design_ref": "DESIGN.md section 6 / C15",
  },
  "C07": {
-  "text": "Lean theorems (half connection abstract): server side complete — C07_server_connect_sound(_frame) (Connect only while processing an ACK whose nonce equals the pending entry's server-drawn nonce), C07_server_nonce_provenance (along any run a pending entry's nonce was drawn for a received SYN from that address and its SYN-ACK was sent there), C07_server_connect_once, C07_forged_noop_server, C07_undecodable_noop, C07_refusal_server / C07_accept_only_if, C07_agreement / C07_agreement_frames / C07_agreement_exchange (both ends derive matching sequence bases and limits); client-side theorems in Props/C07Client (when landed). Tied to real Client/Server by ep correspondence with forged handshake frames; oracle on nonce chains, first frame ids and refusal codes.",
-  "note": 'Trusted: Lean kernel (propext, Classical.choice, Quot.sound), extract_consts.py, relay harness. Client-half theorems pending integration.',
-  "technique": 'Lean 4 proofs over server runs + differential correspondence over real sockets + oracle',
+  "text": "Lean theorems (half connection abstract). Server: C07_server_connect_sound(_frame), C07_server_nonce_provenance, C07_server_connect_once, C07_forged_noop_server, C07_undecodable_noop, C07_refusal_server / C07_accept_only_if, C07_agreement / _frames / _exchange (both ends derive matching sequence bases and limits). Client: C07_client_connect_sound / _transition / _sound_step (Connect only from Pending on a SYN-ACK echoing the client's own nonce; exactly one Connect, first event), C07_client_no_return_to_pending, C07_client_connect_at_most_once, C07_client_forged_synAck_noop, C07_client_forged_hsError_noop, C07_client_dup_synAck_resends_ack, C07_client_server_frames_noop, C07_client_refusal(_map,_step). Tied to real Client/Server by ep correspondence over loopback sockets with forged, stale and replayed handshake frames; oracle on nonce chains, first frame ids and refusal codes.",
+  "note": 'Trusted: Lean kernel (propext, Classical.choice, Quot.sound), extract_consts.py, relay harness, loopback UDP.',
+  "technique": 'Lean 4 proofs over server and client runs + differential correspondence over real sockets + oracle',
   "design_ref": "DESIGN.md section 6 / C07",
  },
  "C08": {
-  "text": "Same model; monitor automaton (Connect? Receive* (Disconnect|Error)?, nothing afterwards, new Connect only after the terminal event / a new attempt, drop() as terminal marker) evaluated on both endpoints' event iterators under all interleavings of send/disconnect/disconnect_now/drop with faults and timers, incl. simultaneous disconnects.",
-  "note": 'Partial until the endpoint theorems land (in progress): the claim rests on exact correspondence of model and real Client/Server plus the implementation-side oracle. Trusted: relay harness, loopback UDP ordering.',
-  "technique": 'Lean 4 model of Server/Client step functions (half connection abstract) + differential correspondence over real sockets + oracle; theorems in progress',
+  "text": "Lean theorems: C08_client_stream (the event list of every client run is [], [Error e], or Connect :: Receive* ++ ([] | [Disconnect] | [Error Timeout]); regex form), C08_client_stream_monitor, C08_client_quiet_after_terminal (no event, only DisconnectAck replies after the end), per-transition case lemmas; server: C08_server_stream(_general) / C08_server_step (for every run from init and every address the labels about it are accepted by the monitor idle -Connect-> conn -Receive*-> conn -Disconnect|Error Timeout-> idle, idle -Error-> idle, drop -> idle, ending in the phase of the final state; well-formedness invariant WF), per-handler lemmas (handleSyn, handleHsAck, handleDisconnect(Ack), handleTraffic, handleTimer, activeTimeoutStep, stepActiveStep, drop). Tied to the real endpoints by ep correspondence incl. crossing disconnects; attempt-counting monitor evaluated on the implementation's event streams.",
+  "note": 'Trusted: Lean kernel (propext, Classical.choice, Quot.sound), relay harness. Server result is monitor acceptance per address (no textual regex corollary).',
+  "technique": 'Lean 4 proofs (monitor refinement over all runs, half connection abstract) + differential correspondence over real sockets + monitor oracle',
   "design_ref": "DESIGN.md section 6 / C08",
  },
  "C09": {
-  "text": "Same model; oracle: Reliable packets submitted before disconnect() are delivered before the peer's Disconnect; from the first transmission of the disconnect request both sides reach a terminal event within 22 s; directed search with a lone (possibly empty) Reliable packet in flight whose frame is lost.",
-  "note": 'Partial until the endpoint theorems land (in progress): the claim rests on exact correspondence of model and real Client/Server plus the implementation-side oracle. Trusted: relay harness, loopback UDP ordering.',
-  "technique": 'Lean 4 model of Server/Client step functions (half connection abstract) + differential correspondence over real sockets + oracle; theorems in progress',
+  "text": 'Lean theorems: C09_discGate_iff / C09_flush_gate_client / C09_flush_gate_server (the disconnect request is sent exactly when disconnect_now() was called or disconnect() was called and nothing is queued, pending or awaiting ack; deliverable packets are emitted before the request / before Disconnect), C09_only_step_enters_closing, C09_retry_budget_client(_entered) (from Closing: <= 10 resends 2 s apart, then exactly one terminal event: Disconnect, or Error(Timeout) only after the whole budget, clock >= t0 + 22000 ms), C09_retry_budget_server (conservation: requests sent + retries left = 10 for the tracked object), C09_server_timer_invariant, C09_left_forever_server, C09_closing_terminal_event_server. Tied to the real endpoints by ep correspondence with loss/dup/reorder of data, ack, disconnect and disconnect-ack frames and blackouts; oracle with directed search for flush-loss scenarios (empty Reliable packets, acks lost).',
+  "note": "Partial: 'every earlier Reliable packet is delivered before the peer sees Disconnect' rests on the gate theorem plus the half-connection properties (C02 is not a theorem); server budget is conditional on the tracked object still closing (per-transition link to the Error event). Trusted: relay harness.",
+  "technique": 'Lean 4 proofs over client/server runs + differential correspondence over real sockets + oracle with directed search',
   "design_ref": "DESIGN.md section 6 / C09",
  },
  "C10": {
-  "text": 'Same model under the virtual clock; oracle: Error(Timeout) only after >= active_timeout of silence (found and repaired F9), emitted within one step after that much silence, handshake timeout after exactly 11 SYNs and >= 22 s, idle keepalive connections never time out when max(K,RTO,2 s)+2L+2 step < T.',
-  "note": 'Partial until the endpoint theorems land (in progress): the claim rests on exact correspondence of model and real Client/Server plus the implementation-side oracle. Trusted: relay harness, loopback UDP ordering.',
-  "technique": 'Lean 4 model of Server/Client step functions (half connection abstract) + differential correspondence over real sockets + oracle; theorems in progress',
+  "text": "Lean theorems under the virtual clock: server (full strength): C10_deadline_invariant_server (every active entry's deadline = clock of the step that last processed a data/sync/ack frame of, or established, that connection + active_timeout), C10_timeout_sound_server, C10_timeout_prompt_server, C10_deadline_handleTraffic/HsAck_server; client: C10_timeout_origin_client, C10_timeout_prompt_client, C10_deadline_step_client, C10_handshake_budget (no Connect => at most 10 SYN copies; Error(Timeout) only after all 10 and a clock >= 22000 ms), C10_timeout_sound_client_partial(_sound). The full client soundness statement is FALSE of model and code: C10_timeout_sound_client_witness (active_timeout 15 s, SYN-ACK processed at 20 s => [Connect, Error(Timeout)] in one step) = known finding F9, reproduced on the real client by the ep oracle and reported as KNOWN-FINDING (the one-line repair makes the repo's own client_active_timeout test flaky, so it is recorded, not applied). Tied to real endpoints by ep correspondence; oracle: timeouts only after the configured silence, within one step after it, retry budgets.",
+  "note": 'Open finding F9 (known_findings.json). Trusted: virtual clock hook, relay harness.',
+  "technique": 'Lean 4 proofs (deadline invariants with ghost clocks, witness theorem for the false clause) + differential correspondence over real sockets + oracle',
   "design_ref": "DESIGN.md section 6 / C10",
  },
  "C17": {
